@@ -49,6 +49,10 @@ type schedScenario struct {
 	TimeFirst int
 	// TimeFirstStep is how much time such a choice lets pass (default: Quantum)
 	TimeFirstStep time.Duration
+	// AllDeviations makes the bound count every non-default choice (deviation bounding) instead
+	// of preemptions only; needed when threads block often, because switches away from a
+	// blocked thread are free under preemption bounding and multiply the schedule space
+	AllDeviations bool
 	// ExtraNames are context thread names whose steps are scheduling points although no thread
 	// body of that name exists (background components started by a thread body)
 	ExtraNames []string
@@ -367,13 +371,21 @@ func exploreSchedules(t *testing.T, c *vcore.Ctx, b *world.Backend, sc *schedSce
 		for i := len(prefix); i < len(x.Decisions); i++ {
 			d := x.Decisions[i]
 			base := preemptionsBefore(x.Decisions, i)
+			if sc.AllDeviations {
+				base = 0
+				for _, pd := range x.Decisions[:i] {
+					if pd.Choice != 0 {
+						base++
+					}
+				}
+			}
 			nAlt := len(d.Menu)
 			if d.TimeAlt {
 				nAlt++
 			}
 			for alt := 1; alt < nAlt; alt++ {
 				cost := base
-				if alt < len(d.Preempt) && d.Preempt[alt] {
+				if sc.AllDeviations || (alt < len(d.Preempt) && d.Preempt[alt]) {
 					cost++
 				}
 				if bound >= 0 && cost > bound {
